@@ -67,7 +67,7 @@ func c14(r *core.Run) {
 	r.Rule("C14/R2", "counting: count is a phi incremented by the constant 1 only under the element's Complete flag; the matched flag and Complete:=true are set only under Eq(element.Provider, signer)=true")
 	r.Rule("C14/R3", "consumed: every path through an acting effect deletes the form, with the key arguments it was loaded by")
 	r.Rule("C14/R5", "the acting effect concerns the prover named on the form: the proof refreshed / the prover removed is selected by msg.Prover or form.Prover and never by the signer")
-	r.Rule("C14/R6", "a form never names the prover it concerns: each component of the exclusion key is extracted from the candidate's address by the same term as from the requesting prover's address, and every candidate that reaches the comparison has passed the shape tests under which the prover's key is set (the filter is reflexive)")
+	r.Rule("C14/R6", "a form never names the prover it concerns: each component of the exclusion key is extracted from the candidate's address by the same term as from the requesting prover's address, and every candidate that reaches the comparison has passed the shape tests under which the prover's key is set (the filter is reflexive); at every call the filter is handed the requesting prover's stored field of the kind the candidates' keys are cut from")
 	r.Rule("C14/R4", "form construction: the form write is behind Found(form)=false, ErrNil(prover lookup), Found(provider) and Cmp(len(candidates) >= Param(AttestFormSize)); entries ⊵ the filtered active-provider list and no message field; inside the loop of the function that writes the form, the candidate list is read at a position computed from loop counters, constants and lengths only (a drawn position can name one provider twice)")
 	hs, err := p.Handlers()
 	if err != nil {
@@ -369,6 +369,7 @@ func c14(r *core.Run) {
 	// ---- R6 a form never names the prover it concerns: the candidate filter is reflexive
 	if hr := core.HandlerByKey(hs, "storage.MsgRequestAttestationForm"); hr != nil {
 		nExcl := 0
+		filterArgSeen := map[ssa.CallInstruction]bool{}
 		for _, fn := range p.Summary(hr.Fn).Funcs {
 			if len(fn.Params) == 0 || fn.Blocks == nil {
 				continue
@@ -379,6 +380,24 @@ func c14(r *core.Run) {
 			allInstrs(fn, func(in ssa.Instruction) {
 				if c, ok := in.(*ssa.Call); ok && strings.HasSuffix(core.CalleeFullName(c), "net/url.Parse") && len(c.Call.Args) == 1 {
 					tb.Names[c.Call.Args[0]] = "U"
+				}
+				// ... or handed to a helper of the repository that parses its parameter as a URL
+				if c, ok := in.(*ssa.Call); ok && !c.Call.IsInvoke() {
+					for _, cal := range p.Callees(c) {
+						allInstrs(cal, func(in2 ssa.Instruction) {
+							c2, ok := in2.(*ssa.Call)
+							if !ok || !strings.HasSuffix(core.CalleeFullName(c2), "net/url.Parse") || len(c2.Call.Args) != 1 {
+								return
+							}
+							if prm, isP := c2.Call.Args[0].(*ssa.Parameter); isP {
+								for i, q := range cal.Params {
+									if q == prm && i < len(c.Call.Args) {
+										tb.Names[c.Call.Args[i]] = "U"
+									}
+								}
+							}
+						})
+					}
 				}
 			})
 			isFilterSide := func(v ssa.Value) bool {
@@ -467,6 +486,57 @@ func c14(r *core.Run) {
 				for g := range fGuards {
 					if !cGuards[g] {
 						missing = g
+					}
+				}
+				// the filter compares like with like only if it is handed the same kind of value the candidates' keys are cut
+				// from: at every call the filter argument is the requesting prover's own record field of that name
+				var candField *core.Atom
+				for _, a := range p.ProvAt(cside, "", ifi).DataAtoms() {
+					if a.Kind == "store" {
+						a := a
+						candField = &a
+					}
+				}
+				fIdx := -1
+				for _, a := range p.ProvAt(fside, "", ifi).DataAtoms() {
+					if a.Kind == "param" && a.Fn == fn {
+						fIdx = a.Idx
+					}
+				}
+				if candField != nil && fIdx >= 0 {
+					for _, caller := range p.CG().In[fn] {
+						allInstrs(caller, func(in ssa.Instruction) {
+							cs, isCall := in.(ssa.CallInstruction)
+							if !isCall || filterArgSeen[cs] {
+								return
+							}
+							hit := false
+							for _, cal := range p.Callees(cs) {
+								if cal == fn {
+									hit = true
+								}
+							}
+							if !hit {
+								return
+							}
+							filterArgSeen[cs] = true
+							var actuals []ssa.Value
+							if cs.Common().IsInvoke() {
+								actuals = append(actuals, cs.Common().Value)
+							}
+							actuals = append(actuals, cs.Common().Args...)
+							if fIdx >= len(actuals) {
+								return
+							}
+							atoms := p.ProvAt(actuals[fIdx], "", cs).DataAtoms()
+							okArg := len(atoms) > 0
+							for _, a := range atoms {
+								if !(a.Kind == "store" && a.Name == candField.Name && a.Path == candField.Path) {
+									okArg = false
+								}
+							}
+							r.Check(okArg, "C14/R6", "form-candidates:filter-argument:"+caller.Name(), p.InstrPos(cs), "the filter is handed "+candField.String()+" of the prover, the field the candidates' keys are cut from", "the candidate filter is handed something other than the requesting prover's "+candField.String()+" (an account address, say): nothing is extracted from it, no candidate is excluded and a form can name the prover it concerns")
+						})
 					}
 				}
 				r.Check(missing == "", "C14/R6", construct, p.InstrPos(ifi), "same extraction on both sides; every candidate compared has passed the shape tests under which the prover's key is set", "the prover's key is only set when "+missing+", but a candidate can reach the comparison without that test: for such an address the prover is not excluded from its own form")
